@@ -3243,275 +3243,6 @@ let new_packet c sec = function
   then Ok { code = c; ident = i; auth = rest; secret = sec; pattrs = [] }
   else Panic
 
-(** val slice : bytes -> nat -> nat -> bytes res **)
-
-let slice a lo hi =
-  if (||) (Nat.ltb hi lo) (Nat.ltb (length a) hi)
-  then Panic
-  else Ok (firstn (sub hi lo) (skipn lo a))
-
-(** val xor_at : bytes -> nat -> bytes -> bytes **)
-
-let xor_at enc i p =
-  app (firstn i enc) (xor_pad (skipn i enc) (skipn i p))
-
-(** val nup_loop :
-    (bytes -> bytes) -> nat -> bytes -> bytes -> bytes -> nat -> bytes res **)
-
-let rec nup_loop h fuel sec pt enc i =
-  match fuel with
-  | O -> OutOfFuel
-  | S f ->
-    if Nat.ltb i (length pt)
-    then (match slice enc
-                  (sub i (S (S (S (S (S (S (S (S (S (S (S (S (S (S (S (S
-                    O))))))))))))))))) i with
-          | Ok prev ->
-            let enc' = app enc (h (app sec prev)) in
-            nup_loop h f sec pt (xor_at enc' i pt)
-              (add i (S (S (S (S (S (S (S (S (S (S (S (S (S (S (S (S
-                O)))))))))))))))))
-          | _ -> Panic)
-    else Ok enc
-
-(** val new_user_password :
-    (bytes -> bytes) -> bytes -> bytes -> bytes -> bytes res **)
-
-let new_user_password h pt sec ra =
-  if holds (gd g_NewUserPassword O) (zlen pt)
-  then Err e_invalid
-  else if holds (gd g_NewUserPassword (S O)) (zlen sec)
-       then Err e_invalid
-       else if holds (gd g_NewUserPassword (S (S O))) (zlen ra)
-            then Err e_invalid
-            else let enc = h (app sec ra) in
-                 nup_loop h (S (length pt)) sec pt (xor_at enc O pt) (S (S (S
-                   (S (S (S (S (S (S (S (S (S (S (S (S (S O))))))))))))))))
-
-(** val up_loop :
-    (bytes -> bytes) -> nat -> bytes -> bytes -> bytes -> nat -> bytes res **)
-
-let rec up_loop h fuel sec a dec i =
-  match fuel with
-  | O -> OutOfFuel
-  | S f ->
-    if Nat.ltb i (length a)
-    then (match slice a
-                  (sub i (S (S (S (S (S (S (S (S (S (S (S (S (S (S (S (S
-                    O))))))))))))))))) i with
-          | Ok prev ->
-            (match slice a i
-                     (add i (S (S (S (S (S (S (S (S (S (S (S (S (S (S (S (S
-                       O))))))))))))))))) with
-             | Ok cur ->
-               let dec' = app dec (h (app sec prev)) in
-               up_loop h f sec a
-                 (app (firstn i dec') (xor_pad (skipn i dec') cur))
-                 (add i (S (S (S (S (S (S (S (S (S (S (S (S (S (S (S (S
-                   O)))))))))))))))))
-             | _ -> Panic)
-          | _ -> Panic)
-    else Ok dec
-
-(** val user_password :
-    (bytes -> bytes) -> bytes -> bytes -> bytes -> bytes res **)
-
-let user_password h a sec ra =
-  if (||)
-       ((||) (holds (gd g_UserPassword O) (zlen a))
-         (holds (gd g_UserPassword (S O)) (zlen a)))
-       (holds (gd g_UserPassword (S (S O)))
-         (Z.modulo (zlen a) (Zpos (XO (XO (XO (XO XH)))))))
-  then Err e_invalid
-  else if holds (gd g_UserPassword (S (S (S O)))) (zlen sec)
-       then Err e_invalid
-       else if holds (gd g_UserPassword (S (S (S (S O))))) (zlen ra)
-            then Err e_invalid
-            else (match slice a O (S (S (S (S (S (S (S (S (S (S (S (S (S (S
-                          (S (S O)))))))))))))))) with
-                  | Ok first ->
-                    let dec = xor_pad (h (app sec ra)) first in
-                    (match up_loop h (S (length a)) sec a dec (S (S (S (S (S
-                             (S (S (S (S (S (S (S (S (S (S (S
-                             O)))))))))))))))) with
-                     | Ok d -> Ok (take_until_nul d)
-                     | x -> x)
-                  | _ -> Panic)
-
-(** val xor_block : bytes -> nat -> bytes -> bytes res **)
-
-let xor_block attr0 off b =
-  if Nat.ltb (length attr0)
-       (add off (S (S (S (S (S (S (S (S (S (S (S (S (S (S (S (S
-         O)))))))))))))))))
-  then Panic
-  else Ok
-         (app (firstn off attr0)
-           (app
-             (xor_pad
-               (firstn (S (S (S (S (S (S (S (S (S (S (S (S (S (S (S (S
-                 O)))))))))))))))) (skipn off attr0)) b)
-             (skipn
-               (add off (S (S (S (S (S (S (S (S (S (S (S (S (S (S (S (S
-                 O))))))))))))))))) attr0)))
-
-(** val ntp_loop :
-    (bytes -> bytes) -> nat -> nat -> bytes -> bytes -> bytes -> bytes ->
-    bytes res **)
-
-let rec ntp_loop h n0 chunk sec ra salt attr0 =
-  match n0 with
-  | O -> Ok attr0
-  | S n' ->
-    let h0 =
-      if Nat.eqb chunk O
-      then Ok (h (app sec (app ra salt)))
-      else (match slice attr0
-                    (add (S (S O))
-                      (mul (sub chunk (S O)) (S (S (S (S (S (S (S (S (S (S (S
-                        (S (S (S (S (S O))))))))))))))))))
-                    (add (S (S O))
-                      (mul chunk (S (S (S (S (S (S (S (S (S (S (S (S (S (S (S
-                        (S O)))))))))))))))))) with
-            | Ok prev -> Ok (h (app sec prev))
-            | _ -> Panic)
-    in
-    (match h0 with
-     | Ok b ->
-       (match xor_block attr0
-                (add (S (S O))
-                  (mul chunk (S (S (S (S (S (S (S (S (S (S (S (S (S (S (S (S
-                    O)))))))))))))))))) b with
-        | Ok attr' -> ntp_loop h n' (S chunk) sec ra salt attr'
-        | _ -> Panic)
-     | _ -> Panic)
-
-(** val salt_msb_set : n -> bool **)
-
-let salt_msb_set b =
-  N.leb (Npos (XO (XO (XO (XO (XO (XO (XO XH))))))))
-    (N.modulo b (Npos (XO (XO (XO (XO (XO (XO (XO (XO XH))))))))))
-
-(** val new_tunnel_password :
-    (bytes -> bytes) -> bytes -> bytes -> bytes -> bytes -> bytes res **)
-
-let new_tunnel_password h pw salt sec ra =
-  if holds (gd g_NewTunnelPassword O) (zlen pw)
-  then Err e_invalid
-  else if holds (gd g_NewTunnelPassword (S O)) (zlen salt)
-       then Err e_invalid
-       else (match salt with
-             | [] -> Panic
-             | s0 :: _ ->
-               if negb (salt_msb_set s0)
-               then Err e_invalid
-               else if holds (gd g_NewTunnelPassword (S (S (S O)))) (zlen sec)
-                    then Err e_invalid
-                    else if holds (gd g_NewTunnelPassword (S (S (S (S O)))))
-                              (zlen ra)
-                         then Err e_invalid
-                         else let chunks0 =
-                                Nat.div
-                                  (sub
-                                    (add (add (S O) (length pw)) (S (S (S (S
-                                      (S (S (S (S (S (S (S (S (S (S (S (S
-                                      O))))))))))))))))) (S O)) (S (S (S (S
-                                  (S (S (S (S (S (S (S (S (S (S (S (S
-                                  O))))))))))))))))
-                              in
-                              let chunks1 =
-                                if Nat.eqb chunks0 O then S O else chunks0
-                              in
-                              let attr0 =
-                                app (firstn (S (S O)) salt)
-                                  (pad_to
-                                    (mul chunks1 (S (S (S (S (S (S (S (S (S
-                                      (S (S (S (S (S (S (S O)))))))))))))))))
-                                    ((zbyte (zlen pw)) :: pw))
-                              in
-                              ntp_loop h chunks1 O sec ra salt attr0)
-
-(** val tp_loop :
-    (bytes -> bytes) -> nat -> nat -> bytes -> bytes -> bytes -> bytes ->
-    bytes -> bytes res **)
-
-let rec tp_loop h n0 chunk sec ra salt a plain =
-  match n0 with
-  | O -> Ok plain
-  | S n' ->
-    let h0 =
-      if Nat.eqb chunk O
-      then Ok (h (app sec (app ra salt)))
-      else (match slice a
-                    (mul (sub chunk (S O)) (S (S (S (S (S (S (S (S (S (S (S
-                      (S (S (S (S (S O)))))))))))))))))
-                    (mul chunk (S (S (S (S (S (S (S (S (S (S (S (S (S (S (S
-                      (S O))))))))))))))))) with
-            | Ok prev -> Ok (h (app sec prev))
-            | _ -> Panic)
-    in
-    (match h0 with
-     | Ok b ->
-       (match slice a
-                (mul chunk (S (S (S (S (S (S (S (S (S (S (S (S (S (S (S (S
-                  O)))))))))))))))))
-                (add
-                  (mul chunk (S (S (S (S (S (S (S (S (S (S (S (S (S (S (S (S
-                    O))))))))))))))))) (S (S (S (S (S (S (S (S (S (S (S (S (S
-                  (S (S (S O))))))))))))))))) with
-        | Ok cur ->
-          tp_loop h n' (S chunk) sec ra salt a (app plain (xor_pad cur b))
-        | _ -> Panic)
-     | _ -> Panic)
-
-(** val tunnel_password :
-    (bytes -> bytes) -> bytes -> bytes -> bytes -> (bytes * bytes) res **)
-
-let tunnel_password h a sec ra =
-  if (||)
-       ((||) (holds (gd g_TunnelPassword O) (zlen a))
-         (holds (gd g_TunnelPassword (S O)) (zlen a)))
-       (holds (gd g_TunnelPassword (S (S O)))
-         (Z.modulo (Z.sub (zlen a) (Zpos (XO XH))) (Zpos (XO (XO (XO (XO
-           XH)))))))
-  then Err e_invalid
-  else if holds (gd g_TunnelPassword (S (S (S O)))) (zlen sec)
-       then Err e_invalid
-       else if holds (gd g_TunnelPassword (S (S (S (S O))))) (zlen ra)
-            then Err e_invalid
-            else (match a with
-                  | [] -> Panic
-                  | a0 :: _ ->
-                    if negb (salt_msb_set a0)
-                    then Err e_invalid
-                    else (match slice a O (S (S O)) with
-                          | Ok salt ->
-                            let a' = skipn (S (S O)) a in
-                            let chunks0 =
-                              Nat.div (length a') (S (S (S (S (S (S (S (S (S
-                                (S (S (S (S (S (S (S O))))))))))))))))
-                            in
-                            (match tp_loop h chunks0 O sec ra salt a' [] with
-                             | Ok plain ->
-                               (match plain with
-                                | [] -> Panic
-                                | pl :: _ ->
-                                  if Z.gtb (Z.of_N pl)
-                                       (Z.sub (zlen plain) (Zpos XH))
-                                  then Err e_invalid
-                                  else (match slice plain (S O)
-                                                (N.to_nat
-                                                  (N.modulo
-                                                    (N.add (Npos XH) pl)
-                                                    (Npos (XO (XO (XO (XO (XO
-                                                    (XO (XO (XO XH))))))))))) with
-                                        | Ok pw -> Ok (pw, salt)
-                                        | _ -> Panic))
-                             | Err e -> Err e
-                             | Panic -> Panic
-                             | OutOfFuel -> OutOfFuel)
-                          | _ -> Panic))
-
 (** val dec_uint : guard list -> bytes -> n res **)
 
 let dec_uint g a =
@@ -3835,6 +3566,871 @@ let ipv6prefix a =
                          (cidr_mask p (S (S (S (S (S (S (S (S (S (S (S (S (S
                            (S (S (S O))))))))))))))))))
                   else Err e_invalid))
+
+(** val slice : bytes -> nat -> nat -> bytes res **)
+
+let slice a lo hi =
+  if (||) (Nat.ltb hi lo) (Nat.ltb (length a) hi)
+  then Panic
+  else Ok (firstn (sub hi lo) (skipn lo a))
+
+(** val xor_at : bytes -> nat -> bytes -> bytes **)
+
+let xor_at enc i p =
+  app (firstn i enc) (xor_pad (skipn i enc) (skipn i p))
+
+(** val nup_loop :
+    (bytes -> bytes) -> nat -> bytes -> bytes -> bytes -> nat -> bytes res **)
+
+let rec nup_loop h fuel sec pt enc i =
+  match fuel with
+  | O -> OutOfFuel
+  | S f ->
+    if Nat.ltb i (length pt)
+    then (match slice enc
+                  (sub i (S (S (S (S (S (S (S (S (S (S (S (S (S (S (S (S
+                    O))))))))))))))))) i with
+          | Ok prev ->
+            let enc' = app enc (h (app sec prev)) in
+            nup_loop h f sec pt (xor_at enc' i pt)
+              (add i (S (S (S (S (S (S (S (S (S (S (S (S (S (S (S (S
+                O)))))))))))))))))
+          | _ -> Panic)
+    else Ok enc
+
+(** val new_user_password :
+    (bytes -> bytes) -> bytes -> bytes -> bytes -> bytes res **)
+
+let new_user_password h pt sec ra =
+  if holds (gd g_NewUserPassword O) (zlen pt)
+  then Err e_invalid
+  else if holds (gd g_NewUserPassword (S O)) (zlen sec)
+       then Err e_invalid
+       else if holds (gd g_NewUserPassword (S (S O))) (zlen ra)
+            then Err e_invalid
+            else let enc = h (app sec ra) in
+                 nup_loop h (S (length pt)) sec pt (xor_at enc O pt) (S (S (S
+                   (S (S (S (S (S (S (S (S (S (S (S (S (S O))))))))))))))))
+
+(** val up_loop :
+    (bytes -> bytes) -> nat -> bytes -> bytes -> bytes -> nat -> bytes res **)
+
+let rec up_loop h fuel sec a dec i =
+  match fuel with
+  | O -> OutOfFuel
+  | S f ->
+    if Nat.ltb i (length a)
+    then (match slice a
+                  (sub i (S (S (S (S (S (S (S (S (S (S (S (S (S (S (S (S
+                    O))))))))))))))))) i with
+          | Ok prev ->
+            (match slice a i
+                     (add i (S (S (S (S (S (S (S (S (S (S (S (S (S (S (S (S
+                       O))))))))))))))))) with
+             | Ok cur ->
+               let dec' = app dec (h (app sec prev)) in
+               up_loop h f sec a
+                 (app (firstn i dec') (xor_pad (skipn i dec') cur))
+                 (add i (S (S (S (S (S (S (S (S (S (S (S (S (S (S (S (S
+                   O)))))))))))))))))
+             | _ -> Panic)
+          | _ -> Panic)
+    else Ok dec
+
+(** val user_password :
+    (bytes -> bytes) -> bytes -> bytes -> bytes -> bytes res **)
+
+let user_password h a sec ra =
+  if (||)
+       ((||) (holds (gd g_UserPassword O) (zlen a))
+         (holds (gd g_UserPassword (S O)) (zlen a)))
+       (holds (gd g_UserPassword (S (S O)))
+         (Z.modulo (zlen a) (Zpos (XO (XO (XO (XO XH)))))))
+  then Err e_invalid
+  else if holds (gd g_UserPassword (S (S (S O)))) (zlen sec)
+       then Err e_invalid
+       else if holds (gd g_UserPassword (S (S (S (S O))))) (zlen ra)
+            then Err e_invalid
+            else (match slice a O (S (S (S (S (S (S (S (S (S (S (S (S (S (S
+                          (S (S O)))))))))))))))) with
+                  | Ok first ->
+                    let dec = xor_pad (h (app sec ra)) first in
+                    (match up_loop h (S (length a)) sec a dec (S (S (S (S (S
+                             (S (S (S (S (S (S (S (S (S (S (S
+                             O)))))))))))))))) with
+                     | Ok d -> Ok (take_until_nul d)
+                     | x -> x)
+                  | _ -> Panic)
+
+(** val xor_block : bytes -> nat -> bytes -> bytes res **)
+
+let xor_block attr0 off b =
+  if Nat.ltb (length attr0)
+       (add off (S (S (S (S (S (S (S (S (S (S (S (S (S (S (S (S
+         O)))))))))))))))))
+  then Panic
+  else Ok
+         (app (firstn off attr0)
+           (app
+             (xor_pad
+               (firstn (S (S (S (S (S (S (S (S (S (S (S (S (S (S (S (S
+                 O)))))))))))))))) (skipn off attr0)) b)
+             (skipn
+               (add off (S (S (S (S (S (S (S (S (S (S (S (S (S (S (S (S
+                 O))))))))))))))))) attr0)))
+
+(** val ntp_loop :
+    (bytes -> bytes) -> nat -> nat -> bytes -> bytes -> bytes -> bytes ->
+    bytes res **)
+
+let rec ntp_loop h n0 chunk sec ra salt attr0 =
+  match n0 with
+  | O -> Ok attr0
+  | S n' ->
+    let h0 =
+      if Nat.eqb chunk O
+      then Ok (h (app sec (app ra salt)))
+      else (match slice attr0
+                    (add (S (S O))
+                      (mul (sub chunk (S O)) (S (S (S (S (S (S (S (S (S (S (S
+                        (S (S (S (S (S O))))))))))))))))))
+                    (add (S (S O))
+                      (mul chunk (S (S (S (S (S (S (S (S (S (S (S (S (S (S (S
+                        (S O)))))))))))))))))) with
+            | Ok prev -> Ok (h (app sec prev))
+            | _ -> Panic)
+    in
+    (match h0 with
+     | Ok b ->
+       (match xor_block attr0
+                (add (S (S O))
+                  (mul chunk (S (S (S (S (S (S (S (S (S (S (S (S (S (S (S (S
+                    O)))))))))))))))))) b with
+        | Ok attr' -> ntp_loop h n' (S chunk) sec ra salt attr'
+        | _ -> Panic)
+     | _ -> Panic)
+
+(** val salt_msb_set : n -> bool **)
+
+let salt_msb_set b =
+  N.leb (Npos (XO (XO (XO (XO (XO (XO (XO XH))))))))
+    (N.modulo b (Npos (XO (XO (XO (XO (XO (XO (XO (XO XH))))))))))
+
+(** val new_tunnel_password :
+    (bytes -> bytes) -> bytes -> bytes -> bytes -> bytes -> bytes res **)
+
+let new_tunnel_password h pw salt sec ra =
+  if holds (gd g_NewTunnelPassword O) (zlen pw)
+  then Err e_invalid
+  else if holds (gd g_NewTunnelPassword (S O)) (zlen salt)
+       then Err e_invalid
+       else (match salt with
+             | [] -> Panic
+             | s0 :: _ ->
+               if negb (salt_msb_set s0)
+               then Err e_invalid
+               else if holds (gd g_NewTunnelPassword (S (S (S O)))) (zlen sec)
+                    then Err e_invalid
+                    else if holds (gd g_NewTunnelPassword (S (S (S (S O)))))
+                              (zlen ra)
+                         then Err e_invalid
+                         else let chunks0 =
+                                Nat.div
+                                  (sub
+                                    (add (add (S O) (length pw)) (S (S (S (S
+                                      (S (S (S (S (S (S (S (S (S (S (S (S
+                                      O))))))))))))))))) (S O)) (S (S (S (S
+                                  (S (S (S (S (S (S (S (S (S (S (S (S
+                                  O))))))))))))))))
+                              in
+                              let chunks1 =
+                                if Nat.eqb chunks0 O then S O else chunks0
+                              in
+                              let attr0 =
+                                app (firstn (S (S O)) salt)
+                                  (pad_to
+                                    (mul chunks1 (S (S (S (S (S (S (S (S (S
+                                      (S (S (S (S (S (S (S O)))))))))))))))))
+                                    ((zbyte (zlen pw)) :: pw))
+                              in
+                              ntp_loop h chunks1 O sec ra salt attr0)
+
+(** val tp_loop :
+    (bytes -> bytes) -> nat -> nat -> bytes -> bytes -> bytes -> bytes ->
+    bytes -> bytes res **)
+
+let rec tp_loop h n0 chunk sec ra salt a plain =
+  match n0 with
+  | O -> Ok plain
+  | S n' ->
+    let h0 =
+      if Nat.eqb chunk O
+      then Ok (h (app sec (app ra salt)))
+      else (match slice a
+                    (mul (sub chunk (S O)) (S (S (S (S (S (S (S (S (S (S (S
+                      (S (S (S (S (S O)))))))))))))))))
+                    (mul chunk (S (S (S (S (S (S (S (S (S (S (S (S (S (S (S
+                      (S O))))))))))))))))) with
+            | Ok prev -> Ok (h (app sec prev))
+            | _ -> Panic)
+    in
+    (match h0 with
+     | Ok b ->
+       (match slice a
+                (mul chunk (S (S (S (S (S (S (S (S (S (S (S (S (S (S (S (S
+                  O)))))))))))))))))
+                (add
+                  (mul chunk (S (S (S (S (S (S (S (S (S (S (S (S (S (S (S (S
+                    O))))))))))))))))) (S (S (S (S (S (S (S (S (S (S (S (S (S
+                  (S (S (S O))))))))))))))))) with
+        | Ok cur ->
+          tp_loop h n' (S chunk) sec ra salt a (app plain (xor_pad cur b))
+        | _ -> Panic)
+     | _ -> Panic)
+
+(** val tunnel_password :
+    (bytes -> bytes) -> bytes -> bytes -> bytes -> (bytes * bytes) res **)
+
+let tunnel_password h a sec ra =
+  if (||)
+       ((||) (holds (gd g_TunnelPassword O) (zlen a))
+         (holds (gd g_TunnelPassword (S O)) (zlen a)))
+       (holds (gd g_TunnelPassword (S (S O)))
+         (Z.modulo (Z.sub (zlen a) (Zpos (XO XH))) (Zpos (XO (XO (XO (XO
+           XH)))))))
+  then Err e_invalid
+  else if holds (gd g_TunnelPassword (S (S (S O)))) (zlen sec)
+       then Err e_invalid
+       else if holds (gd g_TunnelPassword (S (S (S (S O))))) (zlen ra)
+            then Err e_invalid
+            else (match a with
+                  | [] -> Panic
+                  | a0 :: _ ->
+                    if negb (salt_msb_set a0)
+                    then Err e_invalid
+                    else (match slice a O (S (S O)) with
+                          | Ok salt ->
+                            let a' = skipn (S (S O)) a in
+                            let chunks0 =
+                              Nat.div (length a') (S (S (S (S (S (S (S (S (S
+                                (S (S (S (S (S (S (S O))))))))))))))))
+                            in
+                            (match tp_loop h chunks0 O sec ra salt a' [] with
+                             | Ok plain ->
+                               (match plain with
+                                | [] -> Panic
+                                | pl :: _ ->
+                                  if Z.gtb (Z.of_N pl)
+                                       (Z.sub (zlen plain) (Zpos XH))
+                                  then Err e_invalid
+                                  else (match slice plain (S O)
+                                                (N.to_nat
+                                                  (N.modulo
+                                                    (N.add (Npos XH) pl)
+                                                    (Npos (XO (XO (XO (XO (XO
+                                                    (XO (XO (XO XH))))))))))) with
+                                        | Ok pw -> Ok (pw, salt)
+                                        | _ -> Panic))
+                             | Err e -> Err e
+                             | Panic -> Panic
+                             | OutOfFuel -> OutOfFuel)
+                          | _ -> Panic))
+
+(** val vSA_TYPE : z **)
+
+let vSA_TYPE =
+  Zpos (XO (XI (XO (XI XH))))
+
+(** val walk : nat -> bytes -> (n * bytes) list * bytes **)
+
+let rec walk fuel vsa =
+  match fuel with
+  | O -> ([], vsa)
+  | S f ->
+    (match vsa with
+     | [] -> ([], vsa)
+     | t :: l0 ->
+       (match l0 with
+        | [] -> ([], vsa)
+        | l :: l1 ->
+          (match l1 with
+           | [] -> ([], vsa)
+           | _ :: _ ->
+             let n0 = N.to_nat l in
+             if (||) (Nat.ltb (length vsa) n0) (Nat.ltb n0 (S (S (S O))))
+             then ([], vsa)
+             else let (subs, rest) = walk f (skipn n0 vsa) in
+                  (((t, (firstn n0 vsa)) :: subs), rest))))
+
+(** val subattrs : bytes -> (n * bytes) list * bytes **)
+
+let subattrs payload =
+  walk (length payload) payload
+
+(** val vsa_payload : n -> avp -> bytes option **)
+
+let vsa_payload vid a =
+  if negb (Z.eqb a.atype vSA_TYPE)
+  then None
+  else (match vendor_specific a.aval with
+        | Ok a0 ->
+          let (id, payload) = a0 in
+          if N.eqb id vid then Some payload else None
+        | _ -> None)
+
+(** val values_of : n -> (n * bytes) list -> bytes list **)
+
+let values_of typ subs =
+  map (fun s -> skipn (S (S O)) (snd s))
+    (filter (fun s -> N.eqb (fst s) typ) subs)
+
+(** val gets_vendor : n -> n -> attrs -> bytes list **)
+
+let gets_vendor vid typ l =
+  flat_map (fun a ->
+    match vsa_payload vid a with
+    | Some payload -> values_of typ (fst (subattrs payload))
+    | None -> []) l
+
+(** val vendor_tlv : n -> bytes -> bytes **)
+
+let vendor_tlv typ a =
+  typ :: ((zbyte (Z.add (Zpos (XO XH)) (zlen a))) :: a)
+
+(** val add_vendor : n -> n -> bytes -> attrs -> attrs res **)
+
+let add_vendor vid typ a l =
+  if Nat.eqb (length a) O
+  then Err e_invalid
+  else (match new_vendor_specific vid (vendor_tlv typ a) with
+        | Ok vsa -> Ok (add0 vSA_TYPE vsa l)
+        | Err e -> Err e
+        | Panic -> Panic
+        | OutOfFuel -> OutOfFuel)
+
+(** val strip : n -> bytes -> bool * bytes **)
+
+let strip typ payload =
+  let (subs, rest) = subattrs payload in
+  ((existsb (fun s -> N.eqb (fst s) typ) subs),
+  (app (flat_map snd (filter (fun s -> negb (N.eqb (fst s) typ)) subs)) rest))
+
+(** val del_vendor : n -> n -> attrs -> attrs **)
+
+let rec del_vendor vid typ = function
+| [] -> []
+| a :: r ->
+  (match vsa_payload vid a with
+   | Some payload ->
+     let (removed, kept) = strip typ payload in
+     if negb removed
+     then a :: (del_vendor vid typ r)
+     else (match kept with
+           | [] -> del_vendor vid typ r
+           | _ :: _ ->
+             { atype = a.atype; aval =
+               (app (firstn (S (S (S (S O)))) a.aval) kept) } :: (del_vendor
+                                                                   vid typ r))
+   | None -> a :: (del_vendor vid typ r))
+
+(** val set_vendor : n -> n -> bytes -> attrs -> attrs res **)
+
+let set_vendor vid typ a l =
+  if Nat.eqb (length a) O
+  then Err e_invalid
+  else (match new_vendor_specific vid (vendor_tlv typ a) with
+        | Ok vsa -> Ok (add0 vSA_TYPE vsa (del_vendor vid typ l))
+        | Err e -> Err e
+        | Panic -> Panic
+        | OutOfFuel -> OutOfFuel)
+
+type hkind =
+| KBytes
+| KConcat
+| KIP4
+| KIP6
+| KIFID
+| KPrefix
+| KDate
+| KInt of nat
+| KByte
+
+type hdesc = { h_type : z; h_kind : hkind; h_tag : bool; h_enc : z;
+               h_size : z option; h_vendor : n option }
+
+type gv = { g_b : bytes; g_u : z; g_mask : bytes }
+
+(** val gv_b : bytes -> gv **)
+
+let gv_b b =
+  { g_b = b; g_u = Z0; g_mask = [] }
+
+(** val gv_u : z -> gv **)
+
+let gv_u u =
+  { g_b = []; g_u = u; g_mask = [] }
+
+(** val e_noattr : n **)
+
+let e_noattr =
+  Npos (XO (XO (XO (XI (XO XH)))))
+
+(** val forced_salt : bytes -> bytes **)
+
+let forced_salt = function
+| [] -> []
+| s0 :: r -> (N.coq_lor s0 (Npos (XO (XO (XO (XO (XO (XO (XO XH))))))))) :: r
+
+(** val tp_wrap :
+    (bytes -> bytes) -> packet -> bytes -> bytes -> bytes res **)
+
+let tp_wrap hs p salt a =
+  new_tunnel_password hs a (forced_salt salt) p.secret p.auth
+
+(** val h_encode :
+    (bytes -> bytes) -> hdesc -> packet -> bytes -> n -> gv -> bytes res **)
+
+let h_encode hs d p salt tag v =
+  match d.h_kind with
+  | KBytes ->
+    let size_ok =
+      match d.h_size with
+      | Some n0 -> Z.eqb (zlen v.g_b) n0
+      | None -> true
+    in
+    if negb size_ok
+    then Err e_invalid
+    else bind
+           (if Z.eqb d.h_enc (Zpos XH)
+            then new_user_password hs v.g_b p.secret p.auth
+            else if Z.eqb d.h_enc (Zpos (XO XH))
+                 then tp_wrap hs p salt v.g_b
+                 else new_bytes v.g_b) (fun a ->
+           if (&&) d.h_tag (N.leb tag (Npos (XI (XI (XI (XI XH))))))
+           then if Nat.ltb (S (S (S (S (S (S (S (S (S (S (S (S (S (S (S (S (S
+                     (S (S (S (S (S (S (S (S (S (S (S (S (S (S (S (S (S (S (S
+                     (S (S (S (S (S (S (S (S (S (S (S (S (S (S (S (S (S (S (S
+                     (S (S (S (S (S (S (S (S (S (S (S (S (S (S (S (S (S (S (S
+                     (S (S (S (S (S (S (S (S (S (S (S (S (S (S (S (S (S (S (S
+                     (S (S (S (S (S (S (S (S (S (S (S (S (S (S (S (S (S (S (S
+                     (S (S (S (S (S (S (S (S (S (S (S (S (S (S (S (S (S (S (S
+                     (S (S (S (S (S (S (S (S (S (S (S (S (S (S (S (S (S (S (S
+                     (S (S (S (S (S (S (S (S (S (S (S (S (S (S (S (S (S (S (S
+                     (S (S (S (S (S (S (S (S (S (S (S (S (S (S (S (S (S (S (S
+                     (S (S (S (S (S (S (S (S (S (S (S (S (S (S (S (S (S (S (S
+                     (S (S (S (S (S (S (S (S (S (S (S (S (S (S (S (S (S (S (S
+                     (S (S (S (S (S (S (S (S (S (S (S (S (S (S (S (S (S (S (S
+                     (S (S (S (S (S (S (S
+                     O))))))))))))))))))))))))))))))))))))))))))))))))))))))))))))))))))))))))))))))))))))))))))))))))))))))))))))))))))))))))))))))))))))))))))))))))))))))))))))))))))))))))))))))))))))))))))))))))))))))))))))))))))))))))))))))))))))))))))))))))))))))))))))
+                     (length a)
+                then Err e_invalid
+                else Ok (tag :: a)
+           else Ok a)
+  | KConcat -> Ok v.g_b
+  | KIP4 ->
+    bind (new_ipaddr v.g_b) (fun a ->
+      if Z.eqb d.h_enc (Zpos (XO XH)) then tp_wrap hs p salt a else Ok a)
+  | KIP6 ->
+    bind (new_ipv6addr v.g_b) (fun a ->
+      if Z.eqb d.h_enc (Zpos (XO XH)) then tp_wrap hs p salt a else Ok a)
+  | KIFID -> new_ifid v.g_b
+  | KPrefix -> new_ipv6prefix v.g_b v.g_mask
+  | KDate -> new_date v.g_u
+  | KInt n0 ->
+    let a = be_enc n0 (Z.to_N v.g_u) in
+    if d.h_tag
+    then if Z.gtb v.g_u (Zpos (XI (XI (XI (XI (XI (XI (XI (XI (XI (XI (XI (XI
+              (XI (XI (XI (XI (XI (XI (XI (XI (XI (XI (XI
+              XH))))))))))))))))))))))))
+         then Err e_invalid
+         else Ok
+                ((if (&&) (N.leb (Npos XH) tag)
+                       (N.leb tag (Npos (XI (XI (XI (XI XH))))))
+                  then tag
+                  else N0) :: (skipn (S O) a))
+    else if Z.eqb d.h_enc (Zpos (XO XH)) then tp_wrap hs p salt a else Ok a
+  | KByte -> Ok ((Z.to_N v.g_u) :: [])
+
+(** val chunks : nat -> bytes -> bytes list **)
+
+let rec chunks fuel v =
+  match fuel with
+  | O -> []
+  | S f ->
+    (match v with
+     | [] -> []
+     | _ :: _ ->
+       (firstn (S (S (S (S (S (S (S (S (S (S (S (S (S (S (S (S (S (S (S (S (S
+         (S (S (S (S (S (S (S (S (S (S (S (S (S (S (S (S (S (S (S (S (S (S (S
+         (S (S (S (S (S (S (S (S (S (S (S (S (S (S (S (S (S (S (S (S (S (S (S
+         (S (S (S (S (S (S (S (S (S (S (S (S (S (S (S (S (S (S (S (S (S (S (S
+         (S (S (S (S (S (S (S (S (S (S (S (S (S (S (S (S (S (S (S (S (S (S (S
+         (S (S (S (S (S (S (S (S (S (S (S (S (S (S (S (S (S (S (S (S (S (S (S
+         (S (S (S (S (S (S (S (S (S (S (S (S (S (S (S (S (S (S (S (S (S (S (S
+         (S (S (S (S (S (S (S (S (S (S (S (S (S (S (S (S (S (S (S (S (S (S (S
+         (S (S (S (S (S (S (S (S (S (S (S (S (S (S (S (S (S (S (S (S (S (S (S
+         (S (S (S (S (S (S (S (S (S (S (S (S (S (S (S (S (S (S (S (S (S (S (S
+         (S (S (S (S (S (S (S (S (S (S (S (S (S (S (S (S (S (S (S (S (S (S (S
+         (S (S
+         O)))))))))))))))))))))))))))))))))))))))))))))))))))))))))))))))))))))))))))))))))))))))))))))))))))))))))))))))))))))))))))))))))))))))))))))))))))))))))))))))))))))))))))))))))))))))))))))))))))))))))))))))))))))))))))))))))))))))))))))))))))))))))))))
+         v) :: (chunks f
+                 (skipn (S (S (S (S (S (S (S (S (S (S (S (S (S (S (S (S (S (S
+                   (S (S (S (S (S (S (S (S (S (S (S (S (S (S (S (S (S (S (S
+                   (S (S (S (S (S (S (S (S (S (S (S (S (S (S (S (S (S (S (S
+                   (S (S (S (S (S (S (S (S (S (S (S (S (S (S (S (S (S (S (S
+                   (S (S (S (S (S (S (S (S (S (S (S (S (S (S (S (S (S (S (S
+                   (S (S (S (S (S (S (S (S (S (S (S (S (S (S (S (S (S (S (S
+                   (S (S (S (S (S (S (S (S (S (S (S (S (S (S (S (S (S (S (S
+                   (S (S (S (S (S (S (S (S (S (S (S (S (S (S (S (S (S (S (S
+                   (S (S (S (S (S (S (S (S (S (S (S (S (S (S (S (S (S (S (S
+                   (S (S (S (S (S (S (S (S (S (S (S (S (S (S (S (S (S (S (S
+                   (S (S (S (S (S (S (S (S (S (S (S (S (S (S (S (S (S (S (S
+                   (S (S (S (S (S (S (S (S (S (S (S (S (S (S (S (S (S (S (S
+                   (S (S (S (S (S (S (S (S (S (S (S (S (S (S (S (S (S (S (S
+                   (S (S (S (S (S (S (S
+                   O)))))))))))))))))))))))))))))))))))))))))))))))))))))))))))))))))))))))))))))))))))))))))))))))))))))))))))))))))))))))))))))))))))))))))))))))))))))))))))))))))))))))))))))))))))))))))))))))))))))))))))))))))))))))))))))))))))))))))))))))))))))))))))))
+                   v)))
+
+(** val h_add :
+    (bytes -> bytes) -> hdesc -> packet -> bytes -> n -> gv -> packet res **)
+
+let h_add hs d p salt tag v =
+  bind (h_encode hs d p salt tag v) (fun a ->
+    match d.h_vendor with
+    | Some vid ->
+      bind (add_vendor vid (Z.to_N d.h_type) a p.pattrs) (fun l -> Ok
+        { code = p.code; ident = p.ident; auth = p.auth; secret = p.secret;
+        pattrs = l })
+    | None ->
+      Ok { code = p.code; ident = p.ident; auth = p.auth; secret = p.secret;
+        pattrs = (add0 d.h_type a p.pattrs) })
+
+(** val h_set :
+    (bytes -> bytes) -> hdesc -> packet -> bytes -> n -> gv -> packet res **)
+
+let h_set hs d p salt tag v =
+  bind (h_encode hs d p salt tag v) (fun a ->
+    match d.h_kind with
+    | KConcat ->
+      bind (del d.h_type p.pattrs) (fun l -> Ok { code = p.code; ident =
+        p.ident; auth = p.auth; secret = p.secret; pattrs =
+        (app l
+          (map (fun c -> { atype = d.h_type; aval = c })
+            (chunks (S (length a)) a))) })
+    | _ ->
+      (match d.h_vendor with
+       | Some vid ->
+         bind (set_vendor vid (Z.to_N d.h_type) a p.pattrs) (fun l -> Ok
+           { code = p.code; ident = p.ident; auth = p.auth; secret =
+           p.secret; pattrs = l })
+       | None ->
+         bind (set d.h_type a p.pattrs) (fun l -> Ok { code = p.code; ident =
+           p.ident; auth = p.auth; secret = p.secret; pattrs = l })))
+
+(** val h_del : hdesc -> packet -> packet res **)
+
+let h_del d p =
+  match d.h_vendor with
+  | Some vid ->
+    Ok { code = p.code; ident = p.ident; auth = p.auth; secret = p.secret;
+      pattrs = (del_vendor vid (Z.to_N d.h_type) p.pattrs) }
+  | None ->
+    bind (del d.h_type p.pattrs) (fun l -> Ok { code = p.code; ident =
+      p.ident; auth = p.auth; secret = p.secret; pattrs = l })
+
+(** val h_decode :
+    (bytes -> bytes) -> hdesc -> packet -> packet -> bytes -> (n * gv) res **)
+
+let h_decode hs d p q a =
+  match d.h_kind with
+  | KIP4 ->
+    bind
+      (if Z.eqb d.h_enc (Zpos (XO XH))
+       then bind (tunnel_password hs a p.secret q.auth) (fun r -> Ok (fst r))
+       else Ok a) (fun a' -> bind (ipaddr a') (fun v -> Ok (N0, (gv_b v))))
+  | KIP6 ->
+    bind
+      (if Z.eqb d.h_enc (Zpos (XO XH))
+       then bind (tunnel_password hs a p.secret q.auth) (fun r -> Ok (fst r))
+       else Ok a) (fun a' -> bind (ipv6addr a') (fun v -> Ok (N0, (gv_b v))))
+  | KIFID -> bind (ifid a) (fun v -> Ok (N0, (gv_b v)))
+  | KPrefix ->
+    bind (ipv6prefix a) (fun r -> Ok (N0, { g_b = (fst r); g_u = Z0; g_mask =
+      (snd r) }))
+  | KDate -> bind (date a) (fun u -> Ok (N0, (gv_u u)))
+  | KInt n0 ->
+    (match a with
+     | [] ->
+       let tag = N0 in
+       bind
+         (if (&&) (negb d.h_tag) (Z.eqb d.h_enc (Zpos (XO XH)))
+          then bind (tunnel_password hs a p.secret q.auth) (fun r -> Ok
+                 (fst r))
+          else Ok a) (fun a'' ->
+         if negb (Nat.eqb (length a'') n0)
+         then Err e_invalid
+         else Ok (tag, (gv_u (Z.of_N (be_dec a'')))))
+     | t :: r ->
+       if (&&) d.h_tag (N.leb t (Npos (XI (XI (XI (XI XH))))))
+       then let a' = N0 :: r in
+            bind
+              (if (&&) (negb d.h_tag) (Z.eqb d.h_enc (Zpos (XO XH)))
+               then bind (tunnel_password hs a' p.secret q.auth) (fun r0 ->
+                      Ok (fst r0))
+               else Ok a') (fun a'' ->
+              if negb (Nat.eqb (length a'') n0)
+              then Err e_invalid
+              else Ok (t, (gv_u (Z.of_N (be_dec a'')))))
+       else let tag = N0 in
+            bind
+              (if (&&) (negb d.h_tag) (Z.eqb d.h_enc (Zpos (XO XH)))
+               then bind (tunnel_password hs a p.secret q.auth) (fun r0 -> Ok
+                      (fst r0))
+               else Ok a) (fun a'' ->
+              if negb (Nat.eqb (length a'') n0)
+              then Err e_invalid
+              else Ok (tag, (gv_u (Z.of_N (be_dec a''))))))
+  | KByte ->
+    (match a with
+     | [] -> Err e_invalid
+     | b :: l ->
+       (match l with
+        | [] -> Ok (N0, (gv_u (Z.of_N b)))
+        | _ :: _ -> Err e_invalid))
+  | _ ->
+    (match a with
+     | [] ->
+       let tag = N0 in
+       bind
+         (if Z.eqb d.h_enc (Zpos XH)
+          then user_password hs a p.secret p.auth
+          else if Z.eqb d.h_enc (Zpos (XO XH))
+               then bind (tunnel_password hs a p.secret q.auth) (fun r -> Ok
+                      (fst r))
+               else Ok a) (fun v ->
+         match d.h_size with
+         | Some n0 ->
+           if negb (Z.eqb (zlen v) n0)
+           then Err e_invalid
+           else Ok (tag, (gv_b v))
+         | None -> Ok (tag, (gv_b v)))
+     | t :: r ->
+       if (&&) d.h_tag (N.leb t (Npos (XI (XI (XI (XI XH))))))
+       then bind
+              (if Z.eqb d.h_enc (Zpos XH)
+               then user_password hs r p.secret p.auth
+               else if Z.eqb d.h_enc (Zpos (XO XH))
+                    then bind (tunnel_password hs r p.secret q.auth)
+                           (fun r0 -> Ok (fst r0))
+                    else Ok r) (fun v ->
+              match d.h_size with
+              | Some n0 ->
+                if negb (Z.eqb (zlen v) n0)
+                then Err e_invalid
+                else Ok (t, (gv_b v))
+              | None -> Ok (t, (gv_b v)))
+       else let tag = N0 in
+            bind
+              (if Z.eqb d.h_enc (Zpos XH)
+               then user_password hs a p.secret p.auth
+               else if Z.eqb d.h_enc (Zpos (XO XH))
+                    then bind (tunnel_password hs a p.secret q.auth)
+                           (fun r0 -> Ok (fst r0))
+                    else Ok a) (fun v ->
+              match d.h_size with
+              | Some n0 ->
+                if negb (Z.eqb (zlen v) n0)
+                then Err e_invalid
+                else Ok (tag, (gv_b v))
+              | None -> Ok (tag, (gv_b v))))
+
+(** val h_raw : hdesc -> packet -> bytes list **)
+
+let h_raw d p =
+  match d.h_vendor with
+  | Some vid -> gets_vendor vid (Z.to_N d.h_type) p.pattrs
+  | None ->
+    map (fun a -> a.aval) (filter (fun a -> Z.eqb a.atype d.h_type) p.pattrs)
+
+(** val h_lookup :
+    (bytes -> bytes) -> hdesc -> packet -> packet -> (n * gv) res **)
+
+let h_lookup hs d p q =
+  match d.h_kind with
+  | KConcat ->
+    (match h_raw d p with
+     | [] -> Err e_noattr
+     | b :: l0 -> Ok (N0, (gv_b (concat (b :: l0)))))
+  | _ ->
+    (match h_raw d p with
+     | [] -> Err e_noattr
+     | a :: _ -> h_decode hs d p q a)
+
+(** val decode_all :
+    (bytes -> bytes) -> hdesc -> packet -> packet -> bytes list -> (n * gv)
+    list res **)
+
+let rec decode_all hs d p q = function
+| [] -> Ok []
+| a :: r ->
+  bind (h_decode hs d p q a) (fun x ->
+    bind (decode_all hs d p q r) (fun xs -> Ok (x :: xs)))
+
+(** val h_gets :
+    (bytes -> bytes) -> hdesc -> packet -> packet -> (n * gv) list res **)
+
+let h_gets hs d p q =
+  decode_all hs d p q (h_raw d p)
+
+type heap = bytes list
+
+type slice0 = { s_addr : nat; s_off : nat; s_len : nat }
+
+(** val cell : heap -> nat -> bytes **)
+
+let cell h a =
+  nth a h []
+
+(** val rd : heap -> slice0 -> bytes **)
+
+let rd h s =
+  firstn s.s_len (skipn s.s_off (cell h s.s_addr))
+
+(** val alloc : heap -> bytes -> heap * slice0 **)
+
+let alloc h b =
+  ((app h (b :: [])), { s_addr = (length h); s_off = O; s_len = (length b) })
+
+(** val set_nth : nat -> 'a1 -> 'a1 list -> 'a1 list **)
+
+let rec set_nth n0 x = function
+| [] -> []
+| y :: r -> (match n0 with
+             | O -> x :: r
+             | S n' -> y :: (set_nth n' x r))
+
+(** val wr : heap -> slice0 -> nat -> n -> heap **)
+
+let wr h s i v =
+  if Nat.ltb i s.s_len
+  then set_nth s.s_addr (set_nth (add s.s_off i) v (cell h s.s_addr)) h
+  else h
+
+type mpacket = { mp_code : z; mp_ident : n; mp_auth : bytes;
+                 mp_secret : slice0; mp_attrs : (z * slice0) list }
+
+(** val pview : heap -> mpacket -> packet **)
+
+let pview h m =
+  { code = m.mp_code; ident = m.mp_ident; auth = m.mp_auth; secret =
+    (rd h m.mp_secret); pattrs =
+    (map (fun a -> { atype = (fst a); aval = (rd h (snd a)) }) m.mp_attrs) }
+
+(** val sub_slices : n -> slice0 -> nat -> (n * bytes) list -> slice0 list **)
+
+let rec sub_slices typ base off = function
+| [] -> []
+| p :: r ->
+  let (t, tlv0) = p in
+  app
+    (if N.eqb t typ
+     then { s_addr = base.s_addr; s_off =
+            (add (add base.s_off off) (S (S O))); s_len =
+            (sub (length tlv0) (S (S O))) } :: []
+     else []) (sub_slices typ base (add off (length tlv0)) r)
+
+(** val m_raw : hdesc -> heap -> mpacket -> slice0 list **)
+
+let m_raw d h m =
+  match d.h_vendor with
+  | Some vid ->
+    flat_map (fun a ->
+      match vsa_payload vid { atype = (fst a); aval = (rd h (snd a)) } with
+      | Some payload ->
+        sub_slices (Z.to_N d.h_type) (snd a) (S (S (S (S O))))
+          (fst (subattrs payload))
+      | None -> []) m.mp_attrs
+  | None -> map snd (filter (fun a -> Z.eqb (fst a) d.h_type) m.mp_attrs)
+
+(** val is_tagged_int : hdesc -> bool **)
+
+let is_tagged_int d =
+  (&&) d.h_tag (match d.h_kind with
+                | KInt _ -> true
+                | _ -> false)
+
+type mval = { v_tag : n; v_b : slice0; v_u : z; v_mask : slice0 }
+
+(** val give : heap -> (n * gv) -> heap * mval **)
+
+let give h x =
+  let (h1, sb) = alloc h (snd x).g_b in
+  let (h2, sm) = alloc h1 (snd x).g_mask in
+  (h2, { v_tag = (fst x); v_b = sb; v_u = (snd x).g_u; v_mask = sm })
+
+(** val clear_tag : bool -> hdesc -> heap -> slice0 -> heap **)
+
+let clear_tag legacy d h s =
+  if (&&) legacy (is_tagged_int d)
+  then (match rd h s with
+        | [] -> h
+        | t :: _ ->
+          if N.leb t (Npos (XI (XI (XI (XI XH))))) then wr h s O N0 else h)
+  else h
+
+(** val m_lookup :
+    (bytes -> bytes) -> bool -> hdesc -> heap -> mpacket -> packet ->
+    heap * mval res **)
+
+let m_lookup hs legacy d h m q =
+  match m_raw d h m with
+  | [] -> (h, (Err e_noattr))
+  | s :: _ ->
+    (match d.h_kind with
+     | KConcat ->
+       let (h', v) = give h (N0, (gv_b (concat (map (rd h) (m_raw d h m)))))
+       in
+       (h', (Ok v))
+     | _ ->
+       let r = h_decode hs d (pview h m) q (rd h s) in
+       let h1 = clear_tag legacy d h s in
+       (match r with
+        | Ok x -> let (h', v) = give h1 x in (h', (Ok v))
+        | Err e -> (h1, (Err e))
+        | Panic -> (h1, Panic)
+        | OutOfFuel -> (h1, OutOfFuel)))
+
+(** val m_gets_loop :
+    (bytes -> bytes) -> bool -> hdesc -> heap -> mpacket -> packet -> slice0
+    list -> heap * mval list res **)
+
+let rec m_gets_loop hs legacy d h m q = function
+| [] -> (h, (Ok []))
+| s :: r ->
+  let x = h_decode hs d (pview h m) q (rd h s) in
+  let h1 = clear_tag legacy d h s in
+  (match x with
+   | Ok x0 ->
+     let (h2, v) = give h1 x0 in
+     let (h3, e) = m_gets_loop hs legacy d h2 m q r in
+     (match e with
+      | Ok vs -> (h3, (Ok (v :: vs)))
+      | _ -> (h3, e))
+   | Err e -> (h1, (Err e))
+   | Panic -> (h1, Panic)
+   | OutOfFuel -> (h1, OutOfFuel))
+
+(** val m_gets :
+    (bytes -> bytes) -> bool -> hdesc -> heap -> mpacket -> packet ->
+    heap * mval list res **)
+
+let m_gets hs legacy d h m q =
+  m_gets_loop hs legacy d h m q (m_raw d h m)
+
+(** val val_view : heap -> mval -> n * gv **)
+
+let val_view h v =
+  (v.v_tag, { g_b = (rd h v.v_b); g_u = v.v_u; g_mask = (rd h v.v_mask) })
 
 (** val e_nonauth : n **)
 
@@ -4980,24 +5576,24 @@ let parse_root ignore_identical opener fuel fname text =
   parse_file ignore_identical opener fuel (fname :: []) fname text empty_dict
     []
 
-type heap = vendor list
+type heap0 = vendor list
 
 type pdict = { p_attrs : attr list; p_values : value list;
                p_vendors : nat list }
 
-(** val deref : heap -> nat -> vendor **)
+(** val deref : heap0 -> nat -> vendor **)
 
 let deref h p =
   nth p h { vn_name = []; vn_number = Z0; vn_format = None; vn_attrs = [];
     vn_values = [] }
 
-(** val view : heap -> pdict -> dict **)
+(** val view : heap0 -> pdict -> dict **)
 
 let view h d =
   { d_attrs = d.p_attrs; d_values = d.p_values; d_vendors =
     (map (deref h) d.p_vendors) }
 
-(** val ptr_by_name : heap -> nat list -> str -> nat option **)
+(** val ptr_by_name : heap0 -> nat list -> str -> nat option **)
 
 let rec ptr_by_name h ps n0 =
   match ps with
@@ -5005,7 +5601,7 @@ let rec ptr_by_name h ps n0 =
   | p :: r ->
     if beq (deref h p).vn_name n0 then Some p else ptr_by_name h r n0
 
-(** val ptr_by_number : heap -> nat list -> z -> nat option **)
+(** val ptr_by_number : heap0 -> nat list -> z -> nat option **)
 
 let rec ptr_by_number h ps k =
   match ps with
@@ -5013,7 +5609,7 @@ let rec ptr_by_number h ps k =
   | p :: r ->
     if Z.eqb (deref h p).vn_number k then Some p else ptr_by_number h r k
 
-(** val index_by_number : heap -> nat list -> z -> nat -> nat option **)
+(** val index_by_number : heap0 -> nat list -> z -> nat -> nat option **)
 
 let rec index_by_number h ps k i =
   match ps with
@@ -5064,7 +5660,7 @@ let e_merge_vattr =
 let check_attrs d1 d2 =
   existsb (attr_clash d1.p_attrs) d2.p_attrs
 
-(** val check_vendors : heap -> pdict -> nat list -> n option **)
+(** val check_vendors : heap0 -> pdict -> nat list -> n option **)
 
 let rec check_vendors h d1 = function
 | [] -> None
@@ -5081,7 +5677,8 @@ let rec check_vendors h d1 = function
           else check_vendors h d1 r
         | None -> check_vendors h d1 r)
 
-(** val assemble : bool -> heap -> nat list -> nat list -> heap * nat list **)
+(** val assemble :
+    bool -> heap0 -> nat list -> nat list -> heap0 * nat list **)
 
 let rec assemble legacy h ps = function
 | [] -> (h, ps)
@@ -5101,7 +5698,7 @@ let rec assemble legacy h ps = function
             (update_at i (length h) ps) r
    | None -> assemble legacy h (app ps (p :: [])) r)
 
-(** val merge : bool -> heap -> pdict -> pdict -> (heap * pdict) res **)
+(** val merge : bool -> heap0 -> pdict -> pdict -> (heap0 * pdict) res **)
 
 let merge legacy h d1 d2 =
   if check_attrs d1 d2
@@ -5113,7 +5710,7 @@ let merge legacy h d1 d2 =
           Ok (h', { p_attrs = (app d1.p_attrs d2.p_attrs); p_values =
           (app d1.p_values d2.p_values); p_vendors = ps }))
 
-(** val load : heap -> dict -> heap * pdict **)
+(** val load : heap0 -> dict -> heap0 * pdict **)
 
 let load h d =
   ((app h d.d_vendors), { p_attrs = d.d_attrs; p_values = d.d_values;
@@ -5745,452 +6342,6 @@ let spec_make_key sHA1 mD4 uTF16 ntresp pw is_send =
          (S (S (S (S (S (S (S (S (S O)))))))))))))))))))))))))
   then Err e_invalid
   else Ok (rfc_make_key sHA1 mD4 uTF16 ntresp pw is_send)
-
-(** val vSA_TYPE : z **)
-
-let vSA_TYPE =
-  Zpos (XO (XI (XO (XI XH))))
-
-(** val walk : nat -> bytes -> (n * bytes) list * bytes **)
-
-let rec walk fuel vsa =
-  match fuel with
-  | O -> ([], vsa)
-  | S f ->
-    (match vsa with
-     | [] -> ([], vsa)
-     | t :: l0 ->
-       (match l0 with
-        | [] -> ([], vsa)
-        | l :: l1 ->
-          (match l1 with
-           | [] -> ([], vsa)
-           | _ :: _ ->
-             let n0 = N.to_nat l in
-             if (||) (Nat.ltb (length vsa) n0) (Nat.ltb n0 (S (S (S O))))
-             then ([], vsa)
-             else let (subs, rest) = walk f (skipn n0 vsa) in
-                  (((t, (firstn n0 vsa)) :: subs), rest))))
-
-(** val subattrs : bytes -> (n * bytes) list * bytes **)
-
-let subattrs payload =
-  walk (length payload) payload
-
-(** val vsa_payload : n -> avp -> bytes option **)
-
-let vsa_payload vid a =
-  if negb (Z.eqb a.atype vSA_TYPE)
-  then None
-  else (match vendor_specific a.aval with
-        | Ok a0 ->
-          let (id, payload) = a0 in
-          if N.eqb id vid then Some payload else None
-        | _ -> None)
-
-(** val values_of : n -> (n * bytes) list -> bytes list **)
-
-let values_of typ subs =
-  map (fun s -> skipn (S (S O)) (snd s))
-    (filter (fun s -> N.eqb (fst s) typ) subs)
-
-(** val gets_vendor : n -> n -> attrs -> bytes list **)
-
-let gets_vendor vid typ l =
-  flat_map (fun a ->
-    match vsa_payload vid a with
-    | Some payload -> values_of typ (fst (subattrs payload))
-    | None -> []) l
-
-(** val vendor_tlv : n -> bytes -> bytes **)
-
-let vendor_tlv typ a =
-  typ :: ((zbyte (Z.add (Zpos (XO XH)) (zlen a))) :: a)
-
-(** val add_vendor : n -> n -> bytes -> attrs -> attrs res **)
-
-let add_vendor vid typ a l =
-  if Nat.eqb (length a) O
-  then Err e_invalid
-  else (match new_vendor_specific vid (vendor_tlv typ a) with
-        | Ok vsa -> Ok (add0 vSA_TYPE vsa l)
-        | Err e -> Err e
-        | Panic -> Panic
-        | OutOfFuel -> OutOfFuel)
-
-(** val strip : n -> bytes -> bool * bytes **)
-
-let strip typ payload =
-  let (subs, rest) = subattrs payload in
-  ((existsb (fun s -> N.eqb (fst s) typ) subs),
-  (app (flat_map snd (filter (fun s -> negb (N.eqb (fst s) typ)) subs)) rest))
-
-(** val del_vendor : n -> n -> attrs -> attrs **)
-
-let rec del_vendor vid typ = function
-| [] -> []
-| a :: r ->
-  (match vsa_payload vid a with
-   | Some payload ->
-     let (removed, kept) = strip typ payload in
-     if negb removed
-     then a :: (del_vendor vid typ r)
-     else (match kept with
-           | [] -> del_vendor vid typ r
-           | _ :: _ ->
-             { atype = a.atype; aval =
-               (app (firstn (S (S (S (S O)))) a.aval) kept) } :: (del_vendor
-                                                                   vid typ r))
-   | None -> a :: (del_vendor vid typ r))
-
-(** val set_vendor : n -> n -> bytes -> attrs -> attrs res **)
-
-let set_vendor vid typ a l =
-  if Nat.eqb (length a) O
-  then Err e_invalid
-  else (match new_vendor_specific vid (vendor_tlv typ a) with
-        | Ok vsa -> Ok (add0 vSA_TYPE vsa (del_vendor vid typ l))
-        | Err e -> Err e
-        | Panic -> Panic
-        | OutOfFuel -> OutOfFuel)
-
-type hkind =
-| KBytes
-| KConcat
-| KIP4
-| KIP6
-| KIFID
-| KPrefix
-| KDate
-| KInt of nat
-| KByte
-
-type hdesc = { h_type : z; h_kind : hkind; h_tag : bool; h_enc : z;
-               h_size : z option; h_vendor : n option }
-
-type gv = { g_b : bytes; g_u : z; g_mask : bytes }
-
-(** val gv_b : bytes -> gv **)
-
-let gv_b b =
-  { g_b = b; g_u = Z0; g_mask = [] }
-
-(** val gv_u : z -> gv **)
-
-let gv_u u =
-  { g_b = []; g_u = u; g_mask = [] }
-
-(** val e_noattr : n **)
-
-let e_noattr =
-  Npos (XO (XO (XO (XI (XO XH)))))
-
-(** val forced_salt : bytes -> bytes **)
-
-let forced_salt = function
-| [] -> []
-| s0 :: r -> (N.coq_lor s0 (Npos (XO (XO (XO (XO (XO (XO (XO XH))))))))) :: r
-
-(** val tp_wrap :
-    (bytes -> bytes) -> packet -> bytes -> bytes -> bytes res **)
-
-let tp_wrap hs p salt a =
-  new_tunnel_password hs a (forced_salt salt) p.secret p.auth
-
-(** val h_encode :
-    (bytes -> bytes) -> hdesc -> packet -> bytes -> n -> gv -> bytes res **)
-
-let h_encode hs d p salt tag v =
-  match d.h_kind with
-  | KBytes ->
-    let size_ok =
-      match d.h_size with
-      | Some n0 -> Z.eqb (zlen v.g_b) n0
-      | None -> true
-    in
-    if negb size_ok
-    then Err e_invalid
-    else bind
-           (if Z.eqb d.h_enc (Zpos XH)
-            then new_user_password hs v.g_b p.secret p.auth
-            else if Z.eqb d.h_enc (Zpos (XO XH))
-                 then tp_wrap hs p salt v.g_b
-                 else new_bytes v.g_b) (fun a ->
-           if (&&) d.h_tag (N.leb tag (Npos (XI (XI (XI (XI XH))))))
-           then if Nat.ltb (S (S (S (S (S (S (S (S (S (S (S (S (S (S (S (S (S
-                     (S (S (S (S (S (S (S (S (S (S (S (S (S (S (S (S (S (S (S
-                     (S (S (S (S (S (S (S (S (S (S (S (S (S (S (S (S (S (S (S
-                     (S (S (S (S (S (S (S (S (S (S (S (S (S (S (S (S (S (S (S
-                     (S (S (S (S (S (S (S (S (S (S (S (S (S (S (S (S (S (S (S
-                     (S (S (S (S (S (S (S (S (S (S (S (S (S (S (S (S (S (S (S
-                     (S (S (S (S (S (S (S (S (S (S (S (S (S (S (S (S (S (S (S
-                     (S (S (S (S (S (S (S (S (S (S (S (S (S (S (S (S (S (S (S
-                     (S (S (S (S (S (S (S (S (S (S (S (S (S (S (S (S (S (S (S
-                     (S (S (S (S (S (S (S (S (S (S (S (S (S (S (S (S (S (S (S
-                     (S (S (S (S (S (S (S (S (S (S (S (S (S (S (S (S (S (S (S
-                     (S (S (S (S (S (S (S (S (S (S (S (S (S (S (S (S (S (S (S
-                     (S (S (S (S (S (S (S (S (S (S (S (S (S (S (S (S (S (S (S
-                     (S (S (S (S (S (S (S
-                     O))))))))))))))))))))))))))))))))))))))))))))))))))))))))))))))))))))))))))))))))))))))))))))))))))))))))))))))))))))))))))))))))))))))))))))))))))))))))))))))))))))))))))))))))))))))))))))))))))))))))))))))))))))))))))))))))))))))))))))))))))))))))))))
-                     (length a)
-                then Err e_invalid
-                else Ok (tag :: a)
-           else Ok a)
-  | KConcat -> Ok v.g_b
-  | KIP4 ->
-    bind (new_ipaddr v.g_b) (fun a ->
-      if Z.eqb d.h_enc (Zpos (XO XH)) then tp_wrap hs p salt a else Ok a)
-  | KIP6 ->
-    bind (new_ipv6addr v.g_b) (fun a ->
-      if Z.eqb d.h_enc (Zpos (XO XH)) then tp_wrap hs p salt a else Ok a)
-  | KIFID -> new_ifid v.g_b
-  | KPrefix -> new_ipv6prefix v.g_b v.g_mask
-  | KDate -> new_date v.g_u
-  | KInt n0 ->
-    let a = be_enc n0 (Z.to_N v.g_u) in
-    if d.h_tag
-    then if Z.gtb v.g_u (Zpos (XI (XI (XI (XI (XI (XI (XI (XI (XI (XI (XI (XI
-              (XI (XI (XI (XI (XI (XI (XI (XI (XI (XI (XI
-              XH))))))))))))))))))))))))
-         then Err e_invalid
-         else Ok
-                ((if (&&) (N.leb (Npos XH) tag)
-                       (N.leb tag (Npos (XI (XI (XI (XI XH))))))
-                  then tag
-                  else N0) :: (skipn (S O) a))
-    else if Z.eqb d.h_enc (Zpos (XO XH)) then tp_wrap hs p salt a else Ok a
-  | KByte -> Ok ((Z.to_N v.g_u) :: [])
-
-(** val chunks : nat -> bytes -> bytes list **)
-
-let rec chunks fuel v =
-  match fuel with
-  | O -> []
-  | S f ->
-    (match v with
-     | [] -> []
-     | _ :: _ ->
-       (firstn (S (S (S (S (S (S (S (S (S (S (S (S (S (S (S (S (S (S (S (S (S
-         (S (S (S (S (S (S (S (S (S (S (S (S (S (S (S (S (S (S (S (S (S (S (S
-         (S (S (S (S (S (S (S (S (S (S (S (S (S (S (S (S (S (S (S (S (S (S (S
-         (S (S (S (S (S (S (S (S (S (S (S (S (S (S (S (S (S (S (S (S (S (S (S
-         (S (S (S (S (S (S (S (S (S (S (S (S (S (S (S (S (S (S (S (S (S (S (S
-         (S (S (S (S (S (S (S (S (S (S (S (S (S (S (S (S (S (S (S (S (S (S (S
-         (S (S (S (S (S (S (S (S (S (S (S (S (S (S (S (S (S (S (S (S (S (S (S
-         (S (S (S (S (S (S (S (S (S (S (S (S (S (S (S (S (S (S (S (S (S (S (S
-         (S (S (S (S (S (S (S (S (S (S (S (S (S (S (S (S (S (S (S (S (S (S (S
-         (S (S (S (S (S (S (S (S (S (S (S (S (S (S (S (S (S (S (S (S (S (S (S
-         (S (S (S (S (S (S (S (S (S (S (S (S (S (S (S (S (S (S (S (S (S (S (S
-         (S (S
-         O)))))))))))))))))))))))))))))))))))))))))))))))))))))))))))))))))))))))))))))))))))))))))))))))))))))))))))))))))))))))))))))))))))))))))))))))))))))))))))))))))))))))))))))))))))))))))))))))))))))))))))))))))))))))))))))))))))))))))))))))))))))))))))))
-         v) :: (chunks f
-                 (skipn (S (S (S (S (S (S (S (S (S (S (S (S (S (S (S (S (S (S
-                   (S (S (S (S (S (S (S (S (S (S (S (S (S (S (S (S (S (S (S
-                   (S (S (S (S (S (S (S (S (S (S (S (S (S (S (S (S (S (S (S
-                   (S (S (S (S (S (S (S (S (S (S (S (S (S (S (S (S (S (S (S
-                   (S (S (S (S (S (S (S (S (S (S (S (S (S (S (S (S (S (S (S
-                   (S (S (S (S (S (S (S (S (S (S (S (S (S (S (S (S (S (S (S
-                   (S (S (S (S (S (S (S (S (S (S (S (S (S (S (S (S (S (S (S
-                   (S (S (S (S (S (S (S (S (S (S (S (S (S (S (S (S (S (S (S
-                   (S (S (S (S (S (S (S (S (S (S (S (S (S (S (S (S (S (S (S
-                   (S (S (S (S (S (S (S (S (S (S (S (S (S (S (S (S (S (S (S
-                   (S (S (S (S (S (S (S (S (S (S (S (S (S (S (S (S (S (S (S
-                   (S (S (S (S (S (S (S (S (S (S (S (S (S (S (S (S (S (S (S
-                   (S (S (S (S (S (S (S (S (S (S (S (S (S (S (S (S (S (S (S
-                   (S (S (S (S (S (S (S
-                   O)))))))))))))))))))))))))))))))))))))))))))))))))))))))))))))))))))))))))))))))))))))))))))))))))))))))))))))))))))))))))))))))))))))))))))))))))))))))))))))))))))))))))))))))))))))))))))))))))))))))))))))))))))))))))))))))))))))))))))))))))))))))))))))
-                   v)))
-
-(** val h_add :
-    (bytes -> bytes) -> hdesc -> packet -> bytes -> n -> gv -> packet res **)
-
-let h_add hs d p salt tag v =
-  bind (h_encode hs d p salt tag v) (fun a ->
-    match d.h_vendor with
-    | Some vid ->
-      bind (add_vendor vid (Z.to_N d.h_type) a p.pattrs) (fun l -> Ok
-        { code = p.code; ident = p.ident; auth = p.auth; secret = p.secret;
-        pattrs = l })
-    | None ->
-      Ok { code = p.code; ident = p.ident; auth = p.auth; secret = p.secret;
-        pattrs = (add0 d.h_type a p.pattrs) })
-
-(** val h_set :
-    (bytes -> bytes) -> hdesc -> packet -> bytes -> n -> gv -> packet res **)
-
-let h_set hs d p salt tag v =
-  bind (h_encode hs d p salt tag v) (fun a ->
-    match d.h_kind with
-    | KConcat ->
-      bind (del d.h_type p.pattrs) (fun l -> Ok { code = p.code; ident =
-        p.ident; auth = p.auth; secret = p.secret; pattrs =
-        (app l
-          (map (fun c -> { atype = d.h_type; aval = c })
-            (chunks (S (length a)) a))) })
-    | _ ->
-      (match d.h_vendor with
-       | Some vid ->
-         bind (set_vendor vid (Z.to_N d.h_type) a p.pattrs) (fun l -> Ok
-           { code = p.code; ident = p.ident; auth = p.auth; secret =
-           p.secret; pattrs = l })
-       | None ->
-         bind (set d.h_type a p.pattrs) (fun l -> Ok { code = p.code; ident =
-           p.ident; auth = p.auth; secret = p.secret; pattrs = l })))
-
-(** val h_del : hdesc -> packet -> packet res **)
-
-let h_del d p =
-  match d.h_vendor with
-  | Some vid ->
-    Ok { code = p.code; ident = p.ident; auth = p.auth; secret = p.secret;
-      pattrs = (del_vendor vid (Z.to_N d.h_type) p.pattrs) }
-  | None ->
-    bind (del d.h_type p.pattrs) (fun l -> Ok { code = p.code; ident =
-      p.ident; auth = p.auth; secret = p.secret; pattrs = l })
-
-(** val h_decode :
-    (bytes -> bytes) -> hdesc -> packet -> packet -> bytes -> (n * gv) res **)
-
-let h_decode hs d p q a =
-  match d.h_kind with
-  | KIP4 ->
-    bind
-      (if Z.eqb d.h_enc (Zpos (XO XH))
-       then bind (tunnel_password hs a p.secret q.auth) (fun r -> Ok (fst r))
-       else Ok a) (fun a' -> bind (ipaddr a') (fun v -> Ok (N0, (gv_b v))))
-  | KIP6 ->
-    bind
-      (if Z.eqb d.h_enc (Zpos (XO XH))
-       then bind (tunnel_password hs a p.secret q.auth) (fun r -> Ok (fst r))
-       else Ok a) (fun a' -> bind (ipv6addr a') (fun v -> Ok (N0, (gv_b v))))
-  | KIFID -> bind (ifid a) (fun v -> Ok (N0, (gv_b v)))
-  | KPrefix ->
-    bind (ipv6prefix a) (fun r -> Ok (N0, { g_b = (fst r); g_u = Z0; g_mask =
-      (snd r) }))
-  | KDate -> bind (date a) (fun u -> Ok (N0, (gv_u u)))
-  | KInt n0 ->
-    (match a with
-     | [] ->
-       let tag = N0 in
-       bind
-         (if (&&) (negb d.h_tag) (Z.eqb d.h_enc (Zpos (XO XH)))
-          then bind (tunnel_password hs a p.secret q.auth) (fun r -> Ok
-                 (fst r))
-          else Ok a) (fun a'' ->
-         if negb (Nat.eqb (length a'') n0)
-         then Err e_invalid
-         else Ok (tag, (gv_u (Z.of_N (be_dec a'')))))
-     | t :: r ->
-       if (&&) d.h_tag (N.leb t (Npos (XI (XI (XI (XI XH))))))
-       then let a' = N0 :: r in
-            bind
-              (if (&&) (negb d.h_tag) (Z.eqb d.h_enc (Zpos (XO XH)))
-               then bind (tunnel_password hs a' p.secret q.auth) (fun r0 ->
-                      Ok (fst r0))
-               else Ok a') (fun a'' ->
-              if negb (Nat.eqb (length a'') n0)
-              then Err e_invalid
-              else Ok (t, (gv_u (Z.of_N (be_dec a'')))))
-       else let tag = N0 in
-            bind
-              (if (&&) (negb d.h_tag) (Z.eqb d.h_enc (Zpos (XO XH)))
-               then bind (tunnel_password hs a p.secret q.auth) (fun r0 -> Ok
-                      (fst r0))
-               else Ok a) (fun a'' ->
-              if negb (Nat.eqb (length a'') n0)
-              then Err e_invalid
-              else Ok (tag, (gv_u (Z.of_N (be_dec a''))))))
-  | KByte ->
-    (match a with
-     | [] -> Err e_invalid
-     | b :: l ->
-       (match l with
-        | [] -> Ok (N0, (gv_u (Z.of_N b)))
-        | _ :: _ -> Err e_invalid))
-  | _ ->
-    (match a with
-     | [] ->
-       let tag = N0 in
-       bind
-         (if Z.eqb d.h_enc (Zpos XH)
-          then user_password hs a p.secret p.auth
-          else if Z.eqb d.h_enc (Zpos (XO XH))
-               then bind (tunnel_password hs a p.secret q.auth) (fun r -> Ok
-                      (fst r))
-               else Ok a) (fun v ->
-         match d.h_size with
-         | Some n0 ->
-           if negb (Z.eqb (zlen v) n0)
-           then Err e_invalid
-           else Ok (tag, (gv_b v))
-         | None -> Ok (tag, (gv_b v)))
-     | t :: r ->
-       if (&&) d.h_tag (N.leb t (Npos (XI (XI (XI (XI XH))))))
-       then bind
-              (if Z.eqb d.h_enc (Zpos XH)
-               then user_password hs r p.secret p.auth
-               else if Z.eqb d.h_enc (Zpos (XO XH))
-                    then bind (tunnel_password hs r p.secret q.auth)
-                           (fun r0 -> Ok (fst r0))
-                    else Ok r) (fun v ->
-              match d.h_size with
-              | Some n0 ->
-                if negb (Z.eqb (zlen v) n0)
-                then Err e_invalid
-                else Ok (t, (gv_b v))
-              | None -> Ok (t, (gv_b v)))
-       else let tag = N0 in
-            bind
-              (if Z.eqb d.h_enc (Zpos XH)
-               then user_password hs a p.secret p.auth
-               else if Z.eqb d.h_enc (Zpos (XO XH))
-                    then bind (tunnel_password hs a p.secret q.auth)
-                           (fun r0 -> Ok (fst r0))
-                    else Ok a) (fun v ->
-              match d.h_size with
-              | Some n0 ->
-                if negb (Z.eqb (zlen v) n0)
-                then Err e_invalid
-                else Ok (tag, (gv_b v))
-              | None -> Ok (tag, (gv_b v))))
-
-(** val h_raw : hdesc -> packet -> bytes list **)
-
-let h_raw d p =
-  match d.h_vendor with
-  | Some vid -> gets_vendor vid (Z.to_N d.h_type) p.pattrs
-  | None ->
-    map (fun a -> a.aval) (filter (fun a -> Z.eqb a.atype d.h_type) p.pattrs)
-
-(** val h_lookup :
-    (bytes -> bytes) -> hdesc -> packet -> packet -> (n * gv) res **)
-
-let h_lookup hs d p q =
-  match d.h_kind with
-  | KConcat ->
-    (match h_raw d p with
-     | [] -> Err e_noattr
-     | b :: l0 -> Ok (N0, (gv_b (concat (b :: l0)))))
-  | _ ->
-    (match h_raw d p with
-     | [] -> Err e_noattr
-     | a :: _ -> h_decode hs d p q a)
-
-(** val decode_all :
-    (bytes -> bytes) -> hdesc -> packet -> packet -> bytes list -> (n * gv)
-    list res **)
-
-let rec decode_all hs d p q = function
-| [] -> Ok []
-| a :: r ->
-  bind (h_decode hs d p q a) (fun x ->
-    bind (decode_all hs d p q r) (fun xs -> Ok (x :: xs)))
-
-(** val h_gets :
-    (bytes -> bytes) -> hdesc -> packet -> packet -> (n * gv) list res **)
-
-let h_gets hs d p q =
-  decode_all hs d p q (h_raw d p)
 
 type key = n * n
 
@@ -15518,7 +15669,7 @@ let dispatch_dict name bs zs =
             then Some (flat_map (fun f -> (TB f) :: []) (scan_lines (b1 bs)))
             else None
 
-(** val load_all : heap -> bytes list -> (heap * pdict list) option **)
+(** val load_all : heap0 -> bytes list -> (heap0 * pdict list) option **)
 
 let rec load_all h = function
 | [] -> Some (h, [])
@@ -15533,7 +15684,8 @@ let rec load_all h = function
       | None -> None)
    | _ -> None)
 
-(** val chain : bool -> heap -> pdict -> pdict list -> (heap * pdict) res **)
+(** val chain :
+    bool -> heap0 -> pdict -> pdict list -> (heap0 * pdict) res **)
 
 let rec chain legacy h acc = function
 | [] -> Ok (h, acc)
@@ -16721,6 +16873,216 @@ let dispatch_helper name bs zs =
                                                       bs''))))))))))))))))
   else None
 
+(** val scribble : heap -> slice0 -> heap **)
+
+let scribble h s =
+  fold_left (fun hh i ->
+    wr hh s i
+      (N.coq_lxor (nth i (rd hh s) N0) (Npos (XI (XO (XI (XO (XO (XI (XO
+        XH)))))))))) (seq O s.s_len) h
+
+(** val scribble_val : heap -> mval -> heap **)
+
+let scribble_val h v =
+  scribble (scribble h v.v_b) v.v_mask
+
+(** val run_mem :
+    bool -> hdesc -> heap -> mpacket -> packet -> mval list -> z list -> tok
+    list **)
+
+let rec run_mem legacy d h m q last = function
+| [] -> []
+| o :: rest ->
+  if Z.eqb o Z0
+  then let (h', r) = m_lookup md5 legacy d h m q in
+       app
+         (match r with
+          | Ok v -> (TI Z0) :: (t_tv d (val_view h' v))
+          | Err e ->
+            (TI (Zpos XH)) :: ((TI
+              (if N.eqb e e_noattr
+               then Zpos (XO (XO (XO (XI (XO XH)))))
+               else Zpos (XO (XO (XO XH))))) :: [])
+          | _ -> (TI (Zpos (XO XH))) :: [])
+         (app (t_attrs (pview h' m).pattrs)
+           (run_mem legacy d h' m q (match r with
+                                     | Ok v -> v :: []
+                                     | _ -> []) rest))
+  else if Z.eqb o (Zpos XH)
+       then let (h', r) = m_gets md5 legacy d h m q in
+            app
+              (match r with
+               | Ok vs ->
+                 (TI Z0) :: ((TI
+                   (zlen vs)) :: (flat_map (fun v -> t_tv d (val_view h' v))
+                                   vs))
+               | Err _ -> (TI (Zpos XH)) :: []
+               | _ -> (TI (Zpos (XO XH))) :: [])
+              (app (t_attrs (pview h' m).pattrs)
+                (run_mem legacy d h' m q (match r with
+                                          | Ok vs -> vs
+                                          | _ -> []) rest))
+       else let h' = fold_left scribble_val last h in
+            (TI (Zpos (XI (XO (XO
+            XH))))) :: (app (t_attrs (pview h' m).pattrs)
+                         (run_mem legacy d h' m q [] rest))
+
+(** val place : bytes list -> z list -> nat -> (z * slice0) list **)
+
+let rec place vals types addr =
+  match vals with
+  | [] -> []
+  | v :: vs ->
+    (match types with
+     | [] -> []
+     | t :: ts ->
+       (t, { s_addr = addr; s_off = O; s_len =
+         (length v) }) :: (place vs ts (S addr)))
+
+(** val dispatch_mem : bytes -> bytes list -> z list -> tok list option **)
+
+let dispatch_mem name bs zs =
+  if (||)
+       (name_is name (String ((Ascii (true, false, true, true, false, true,
+         true, false)), (String ((Ascii (false, true, true, true, false,
+         true, false, false)), (String ((Ascii (true, false, true, true,
+         false, true, true, false)), (String ((Ascii (true, false, true,
+         false, false, true, true, false)), (String ((Ascii (true, false,
+         true, true, false, true, true, false)), EmptyString)))))))))))
+       (name_is name (String ((Ascii (true, true, false, false, true, true,
+         true, false)), (String ((Ascii (false, true, true, true, false,
+         true, false, false)), (String ((Ascii (true, false, true, true,
+         false, true, true, false)), (String ((Ascii (true, false, true,
+         false, false, true, true, false)), (String ((Ascii (true, false,
+         true, true, false, true, true, false)), EmptyString)))))))))))
+  then (match zs with
+        | [] -> Some ((TI (Zneg (XI (XO (XI (XI (XI (XO XH)))))))) :: [])
+        | ht :: l ->
+          (match l with
+           | [] -> Some ((TI (Zneg (XI (XO (XI (XI (XI (XO XH)))))))) :: [])
+           | k :: l0 ->
+             (match l0 with
+              | [] ->
+                Some ((TI (Zneg (XI (XO (XI (XI (XI (XO XH)))))))) :: [])
+              | nb :: l1 ->
+                (match l1 with
+                 | [] ->
+                   Some ((TI (Zneg (XI (XO (XI (XI (XI (XO XH)))))))) :: [])
+                 | tg :: l2 ->
+                   (match l2 with
+                    | [] ->
+                      Some ((TI (Zneg (XI (XO (XI (XI (XI (XO
+                        XH)))))))) :: [])
+                    | enc :: l3 ->
+                      (match l3 with
+                       | [] ->
+                         Some ((TI (Zneg (XI (XO (XI (XI (XI (XO
+                           XH)))))))) :: [])
+                       | sv :: l4 ->
+                         (match l4 with
+                          | [] ->
+                            Some ((TI (Zneg (XI (XO (XI (XI (XI (XO
+                              XH)))))))) :: [])
+                          | sz :: l5 ->
+                            (match l5 with
+                             | [] ->
+                               Some ((TI (Zneg (XI (XO (XI (XI (XI (XO
+                                 XH)))))))) :: [])
+                             | vv :: l6 ->
+                               (match l6 with
+                                | [] ->
+                                  Some ((TI (Zneg (XI (XO (XI (XI (XI (XO
+                                    XH)))))))) :: [])
+                                | vid :: l7 ->
+                                  (match l7 with
+                                   | [] ->
+                                     Some ((TI (Zneg (XI (XO (XI (XI (XI (XO
+                                       XH)))))))) :: [])
+                                   | lg :: l8 ->
+                                     (match l8 with
+                                      | [] ->
+                                        Some ((TI (Zneg (XI (XO (XI (XI (XI
+                                          (XO XH)))))))) :: [])
+                                      | c :: l9 ->
+                                        (match l9 with
+                                         | [] ->
+                                           Some ((TI (Zneg (XI (XO (XI (XI
+                                             (XI (XO XH)))))))) :: [])
+                                         | idn :: l10 ->
+                                           (match l10 with
+                                            | [] ->
+                                              Some ((TI (Zneg (XI (XO (XI (XI
+                                                (XI (XO XH)))))))) :: [])
+                                            | n0 :: zs' ->
+                                              (match bs with
+                                               | [] ->
+                                                 Some ((TI (Zneg (XI (XO (XI
+                                                   (XI (XI (XO
+                                                   XH)))))))) :: [])
+                                               | au :: l11 ->
+                                                 (match l11 with
+                                                  | [] ->
+                                                    Some ((TI (Zneg (XI (XO
+                                                      (XI (XI (XI (XO
+                                                      XH)))))))) :: [])
+                                                  | sec :: l12 ->
+                                                    (match l12 with
+                                                     | [] ->
+                                                       Some ((TI (Zneg (XI
+                                                         (XO (XI (XI (XI (XO
+                                                         XH)))))))) :: [])
+                                                     | qau :: bs' ->
+                                                       let d = { h_type = ht;
+                                                         h_kind =
+                                                         (kind_of k nb);
+                                                         h_tag =
+                                                         (Z.eqb tg (Zpos XH));
+                                                         h_enc = enc;
+                                                         h_size =
+                                                         (if Z.eqb sv (Zpos
+                                                               XH)
+                                                          then Some sz
+                                                          else None);
+                                                         h_vendor =
+                                                         (if Z.eqb vv (Zpos
+                                                               XH)
+                                                          then Some
+                                                                 (Z.to_N vid)
+                                                          else None) }
+                                                       in
+                                                       let nn = Z.to_nat n0 in
+                                                       let vals =
+                                                         firstn nn bs'
+                                                       in
+                                                       let types =
+                                                         firstn nn zs'
+                                                       in
+                                                       let h = sec :: vals in
+                                                       let m = { mp_code = c;
+                                                         mp_ident =
+                                                         (Z.to_N idn);
+                                                         mp_auth = au;
+                                                         mp_secret =
+                                                         { s_addr = O;
+                                                         s_off = O; s_len =
+                                                         (length sec) };
+                                                         mp_attrs =
+                                                         (place vals types (S
+                                                           O)) }
+                                                       in
+                                                       let q = { code = (Zpos
+                                                         XH); ident =
+                                                         (Z.to_N idn); auth =
+                                                         qau; secret = sec;
+                                                         pattrs = [] }
+                                                       in
+                                                       Some
+                                                       (run_mem
+                                                         (Z.eqb lg (Zpos XH))
+                                                         d h m q []
+                                                         (skipn nn zs'))))))))))))))))))
+  else None
+
 (** val dispatch : bytes -> bytes list -> z list -> tok list **)
 
 let dispatch name bs zs =
@@ -16793,5 +17155,10 @@ let dispatch name bs zs =
                                                         zs with
                                                 | Some t -> t
                                                 | None ->
-                                                  (TI (Zneg (XI (XO (XO (XO
-                                                    (XO (XI XH)))))))) :: [])))))))))))
+                                                  (match dispatch_mem name bs
+                                                           zs with
+                                                   | Some t -> t
+                                                   | None ->
+                                                     (TI (Zneg (XI (XO (XO
+                                                       (XO (XO (XI
+                                                       XH)))))))) :: []))))))))))))
